@@ -292,6 +292,22 @@ Qed.
 Theorem update_split f us vs id : update (update f us) vs id = update f (us ++ vs) id.
 Proof. unfold update. now rewrite fold_left_app. Qed.
 
+(* a node's view after any sequence of events - its Raft event listener, the memberlist join/leave/update callbacks,
+   the push/pull delegate - each of which folds one list of updates (the node's own Raft information or a peer's view)
+   into the view (storage/cluster/cluster.go): the view of all these updates delivered at once *)
+Theorem events_fold (events : list (list (N * sview))) : forall f id,
+  fold_left update events f id = update f (concat events) id.
+Proof.
+  induction events as [|e r IH]; intros f id; [reflexivity|].
+  cbn [fold_left concat]. rewrite IH. apply update_split.
+Qed.
+(* hence member events change nothing by themselves: two nodes that saw the same updates - in any order, split over
+   any events - have the same view *)
+Theorem events_order_independent (ev1 ev2 : list (list (N * sview))) f id :
+  Permutation (concat ev1) (concat ev2) -> consistent (f id :: for_shard id (concat ev1)) ->
+  fold_left update ev1 f id = fold_left update ev2 f id.
+Proof. intros Hp Hc. rewrite !events_fold. now apply update_order_independent. Qed.
+
 Theorem update_term_monotone f us id : okL (f id) -> term (f id) <= term (update f us id) /\ okL (update f us id).
 Proof. intros H. rewrite update_shard. split; [apply fold_term_monotone|apply fold_ok]; assumption. Qed.
 
